@@ -85,7 +85,8 @@ def run_views(prop: str, repo_root: str, overrides, tier: str):
     The canonical view replaces every function that differs from the verified reference by its canonical normal form (an
     equivalent program). Per (rule, function) group the live verdict stands unless the whole group is discharged on the
     canonical view: a rule that merely failed to recognise a restructured function then gets a second, normalised look at
-    it, while a group with a violation in both views stays a violation."""
+    it, while a group with a violation in both views stays a violation. A group the live view leaves undecided and the canonical
+    view decides as a violation is a violation (the normal form is the same program)."""
     from .cfg import clear_cache
     from .model import Repo
     from .report import Ctx, OK, INFO
@@ -142,6 +143,13 @@ def run_views(prop: str, repo_root: str, overrides, tier: str):
         if not a_ok and b_ok:
             for x in gb:
                 x.detail = (x.detail + " [discharged on the canonical view]").strip()
+            merged.extend(gb)
+            used_b += 1
+        elif not a_ok and gb and not any(x.status == "violation" for x in ga) and any(x.status == "violation" for x in gb):
+            # the rule could not read the function as written but decides its normal form (an equivalent program): decisive
+            for x in gb:
+                if x.status == "violation":
+                    x.detail = (x.detail + " [decided on the canonical view; the function as written was not recognised]").strip()
             merged.extend(gb)
             used_b += 1
         else:
